@@ -418,11 +418,12 @@ def st_get_raw(ctx: Ctx):
         st.sampled_from(list("ab \n\t=()")), st.characters(min_codepoint=0x80, max_codepoint=0x1F9FF,
                                                           blacklist_categories=("Cs",))
     )
-    text = st.lists(alphabet, min_size=0, max_size=60).map("".join)
+    text = st.one_of(st.lists(alphabet, min_size=0, max_size=60).map("".join),
+                     st.lists(st.sampled_from(list("ab \n\t=()x1")), min_size=1, max_size=60).map("".join))
 
     def with_range(t: str):
-        return st.tuples(st.integers(0, len(t)), st.integers(0, len(t))).map(
-            lambda p: {"text": t, "lo": min(p), "hi": max(p)}
+        return st.tuples(st.integers(0, len(t)), st.integers(0, len(t)), st.sampled_from([0, 0, 0, 1, 2, 3])).map(
+            lambda p: {"text": t, "lo": min(p[:2]), "hi": max(p[:2]), "file": p[2]}
         )
 
     return text.flatmap(with_range)
@@ -451,6 +452,37 @@ def check_get_raw(data: dict, lab: Labels) -> None:
         require(type(s) is CodeOrigin and s.get_raw() == text[lo:hi], "hull-get_raw",
                 f"{s.get_raw()!r} != {text[lo:hi]!r}")
     require(src.get_raw() == text, "source-raw", "")
+    if data.get("file") and text.isascii() and "\r" not in text and text:
+        # the same slice through file-backed sources (text file, plain file and zip member: bytes)
+        import tempfile
+        import zipfile
+        from pathlib import Path
+
+        from pyoak.origin import FileSource, TextFileSource, ZippedFileSource
+
+        pos = CodeRange(start=CodePoint(*og.point_of(text, lo)), end=CodePoint(*og.point_of(text, hi)))
+        with tempfile.TemporaryDirectory(prefix="pbt-c15-") as d:
+            fp = Path(d) / "unit.txt"
+            fp.write_bytes(text.encode("ascii"))
+            zp = Path(d) / "units.zip"
+            with zipfile.ZipFile(zp, "w") as zf:
+                zf.writestr("in/unit.txt", text)
+            how = data["file"] % 3
+            if how == 0:
+                fs: Any = TextFileSource(fp)
+                want: Any = text[lo:hi]
+                whole: Any = text
+            elif how == 1:
+                fs = FileSource(fp)
+                want, whole = None, text.encode()  # (a code chunk is text: byte sources have none)
+            else:
+                fs = ZippedFileSource(zp, in_zip_path=Path("in/unit.txt"))
+                want, whole = None, text.encode()
+            fo = CodeOrigin(source=fs, position=pos)
+            got = fo.get_raw()
+            require(fs.get_raw() == whole, "source-raw", f"{type(fs).__name__}: {fs.get_raw()!r:.80}")
+            require(got == want, "get_raw-slice", f"{type(fs).__name__}: {got!r:.80} != {want!r:.80}")
+            lab.tag("file-backed-" + type(fs).__name__)
 
 
 PARTS = [
